@@ -1,11 +1,12 @@
 #!/bin/bash
 # runs every seeded change found in the scratch worktrees through tools/seeded.sh (sequentially)
-cd /verif
+VROOT=$(cd "$(dirname "$0")/.." && pwd)
+cd $VROOT
 for wt in /tmp/wt_m5 /tmp/wt_m4 /tmp/wt_m1 /tmp/wt_m6 /tmp/wt_m2; do
   for d in $wt/seeded/*/; do
     id=$(basename $d)
     [ -f $d/meta.json ] || continue
-    [ -f /verif/seeded/$id/meta.json ] && grep -q check_exit /verif/seeded/$id/meta.json && continue
+    [ -f $VROOT/seeded/$id/meta.json ] && grep -q check_exit $VROOT/seeded/$id/meta.json && continue
     ./tools/seeded.sh $wt $id 2>&1 | grep -v conda
   done
 done
